@@ -75,6 +75,23 @@ def deliver(case):
     return {'refused': False, 'columns': columns_of(result)}
 
 
+def deliver_seq(case):
+    """ONE long-lived reader and one statement serve several differently arranged entries in a row."""
+    table = dsl.Table(schema(case['query']))
+    statement = table.select(*(getattr(table, n) for n, _ in case['query']))
+    reader = Reader({}, {})
+    out = []
+    for sub in case['entries']:
+        entry = layout.Entry(schema(sub['entry']), tabular(sub['flavour'], sub['rows'], [n for n, _ in sub['entry']]))
+        try:
+            out.append({'refused': False, 'columns': columns_of(reader(statement, entry))})
+        except forml.MissingError:
+            out.append({'refused': True})
+        except Exception as err:  # pylint: disable=broad-except
+            out.append({'error': f'{type(err).__name__}: {err}'})
+    return {'seq': out}
+
+
 def matrix(case):
     names = [f'c{j}' for j in range(case['w'])]
     tab = tabular(case['flavour'], case['rows'], names, case.get('labels'))
@@ -85,6 +102,6 @@ def matrix(case):
 
 def observe(case):
     try:
-        return {'deliver': deliver, 'matrix': matrix}[case['t']](case)
+        return {'deliver': deliver, 'matrix': matrix, 'deliver_seq': deliver_seq}[case['t']](case)
     except Exception as err:  # pylint: disable=broad-except
         return {'error': f'{type(err).__name__}: {err}'}
